@@ -147,6 +147,10 @@ var checks = map[string]checkCfg{
 		Rule:        "each case draws 1-6 calls among UpdateExportOptions / UpdateTuningOptions / UpdatePolicyOptions whose numeric fields come from {0,-1,1,7,4096,65536,2^20}, durations from {0,-1s,1ns,1ms,5s,1h}, Timeouts from {nil, all zero, partly filled, full, negative}, RateLimitConfig from {nil, zero struct, default}, Squash from {same, empty, other case, other value}; after every call the reported configuration, the in-force values and LOOKUP/READ/WRITE through HandleCall are checked; non-trivial = the update carried a zero/negative/nil field or was rejected; distinct = FNV-64 of the case JSON",
 		Assumptions: append([]string{"keeping the previous positive value instead of the construction default is accepted"}, baseAssumptions...),
 		Phases:      []phase{rp("rapid", "^TestC24$", 4, 500, 16, 5000)}},
+	"C25": {Level: "exploration", Technique: "rapid offsets/sizes around the limit; size invariant + differential against an unlimited twin server",
+		Rule:        "each case draws MaxFileSize M from {1,2,100,4096,65537,2^31,2^40}, whether it is set at construction or at runtime, and 2-14 WRITE / SETATTR(size) requests whose end offset is M-1, M, M+1, 2M, 2^62, M/2, 1, M+5000 or 0; every request is also sent to a twin server without limit when it stays within M; non-trivial = a request whose resulting size is within +-1 of M; distinct = FNV-64 of the case JSON",
+		Assumptions: baseAssumptions,
+		Phases:      []phase{rp("rapid", "^TestC25$", 4, 500, 16, 5000)}},
 	"C02": {Level: "exploration", Technique: "rapid histories vs POSIX tree model + cached-vs-uncached differential",
 		Rule:        "cases are rapid-generated sequential histories of LOOKUP/CREATE/MKDIR/SYMLINK/REMOVE/RMDIR/RENAME/READDIR(PLUS)/GETATTR/READLINK over names {a,b,c} to depth 3, addressed through every handle ever issued (stale ones included); each history runs under the all-off baseline and k cached configurations (quick 3, thorough 6 of 15); non-trivial = a read-type request on a name or directory affected by an earlier successful mutation, executed under a configuration with at least one cache on; distinct = FNV-64 of the case JSON",
 		Assumptions: append([]string{"documented latitude L1-L7 of DESIGN.md §5 C02 (REMOVE of empty dir, UNCHECKED/EXCLUSIVE on existing objects, error code identity not compared against the model, path-bound handles)"}, baseAssumptions...),
